@@ -1,5 +1,5 @@
 """C11  Transposition at note and container level (note.py, note_container.py, bar.py, track.py)."""
-from vf.claim import Claim, assume, enum, fork, pick, raises_, real
+from vf.claim import Claim, assume, enum, fork, pick, raises_, real, warm_cold
 from vf.ref import theory as T
 from vf.ref.theory import MAJOR_SIZE, NAT, net, pc, spelled, unmixed
 
@@ -35,6 +35,30 @@ def c11_note(name: str, o: int, acc: str, up: bool) -> bool:
     if unmixed(name):
         return n.name == name and n.octave == o
     return n.name[0] == name[0] and int(n) == before
+
+
+PRIOR = [("C", "#4", False), ("C#", "4", False), ("Cb", "5", True), ("F#", "b7", False), ("B", "2", True), ("E", "#1", False), ("Gb", "6", False), ("C", "b4", False)]
+
+
+def c11_history(pi: int, name: str, o: int, acc: str, up: bool) -> bool:
+    """a transposition gives the same result whatever was transposed before it (the result in the initial state of
+    all module-level state); prior call from a list of representative ones, the query fully symbolic"""
+    deg = P["deg"]
+    pn, ps, pu = pick(PRIOR, pi)
+    sh = acc + str(deg)
+    size = MAJOR_SIZE[deg - 1] + net("x" + acc)
+    assume(0 <= size <= 11)
+    up = fork(up)
+
+    def prior():
+        Note(pn, 4).transpose(ps, pu)
+
+    def query():
+        n = Note(name, o)
+        n.transpose(sh, up)
+        return (n.name, n.octave)
+
+    return warm_cold(prior, query)
 
 
 def c11_octave_floor(o: int, d: int) -> bool:
@@ -144,6 +168,7 @@ def claims(tier):
     cl = []
     K = 1 if q else 2
     for deg in range(1, 8):
+        cl.append(Claim("history[deg=%d]" % deg, c11_history, params={"deg": deg}, group="c11_history", pre=[lambda pi, name, o, acc: 0 <= pi < (4 if q else len(PRIOR)) and spelled(name, 1) and 2 <= o <= 6 and spelled("C" + acc, 1)], timeout=900 if q else 3000, bounds="prior: %d representative transpositions; query: name = letter + {#,b}^<=1, octave 2..6, shorthand {#,b}^<=1 + '%d', up and down (symbolic)" % (4 if q else len(PRIOR), deg)))
         cl.append(Claim("note[deg=%d]" % deg, c11_note, params={"deg": deg, "K": K}, pre=[lambda name, o, acc: spelled(name, P["K"]) and 1 <= o <= 8 and spelled("C" + acc, 2)], timeout=900 if q else 3000, bounds="name = letter + {#,b}^<=%d; octave 1..8 symbolic; shorthand {#,b}^<=2 + '%d' restricted to size 0..11; up and down; up-then-down" % (K, deg)))
     cl.append(Claim("octave_floor", c11_octave_floor, pre=[lambda o: 0 <= o], timeout=300, bounds="octave >= 0, diff: every integer (unbounded)"))
     shapes = ["nc1", "nc2", "nc3", "bar_a", "bar_b", "track"]
